@@ -149,9 +149,12 @@ pub fn main(args: &[String]) -> i32 {
             .build()
             .unwrap();
         rec.take_events();
+        let guard = crate::watchdog::arm(&args[1], &case.id);
         let v = rt.block_on(run_case(&case, &rec));
+        drop(guard);
         drop(rt);
         writeln!(out, "{}", v).unwrap();
+        out.flush().unwrap();
     }
     out.flush().unwrap();
     0
